@@ -158,8 +158,10 @@ TEXT = {
           "maximal runs of satisfied cells; all six sign conditions, both polarities, root indices 0..deg+1. Proved: the negation table "
           "(C12_negate) and, for every root value, index, condition, polarity and real v, membership in the model's root-constraint set "
           "iff the (possibly negated) condition holds for sign(v - root_k), false / true everywhere with fewer roots "
-          "(C12_root_constraint). The sweep itself is executable and tied by correspondence; its set-theoretic theorem is listed as "
-          "the next proof obligation in DESIGN.",
+          "(C12_root_constraint); and the sweep is exact: for strictly increasing roots and any satisfaction vector of the 2n+1 cells, a "
+          "real v lies in one of the returned intervals iff the cell containing v is satisfied (C12_sweep, via run_is_union: the interval "
+          "from the lower boundary of cell s to the upper boundary of cell e is the union of the cells s..e; cell_exists: the cells "
+          "cover the line).",
   "design_ref": "5.12",
   "note": "the C++ helper poly::infeasible_regions is not exercised (C harnesses only)",
   "technique": "Lean 4 proved root-constraint table and sign procedure (validator) + per-output validation of the C results",
